@@ -224,7 +224,10 @@ def check(repo, tier="quick"):
     rule_e(repo, res, m, cls, meth, main_try, hnames, gen_idx)
     rule_f(repo, res, m)
     rule_h(repo, res, m)
-    res.floor("C25.h", 4)
+    from .. import intlimit
+
+    intlimit.rule(repo, res, "C25.h")
+    res.floor("C25.h", 5)
     from .. import globals_state
 
     globals_state.rule(repo, res, "C25.g", ["scripts.vc2_bitstream_validator", "file_format", "dimensions_and_depths", "py2x_compat", "string_utils"], what="the files written for one picture (a later picture of another format would be written with an earlier one's parameters)")
